@@ -157,6 +157,19 @@ class Ctx:
         self.max_violations = 5
         self.state = {}  # per-process scratch for property modules (tmp dirs, built tools)
 
+    def tmpdir(self):
+        """per-process scratch directory, removed at exit"""
+        d = self.state.get("_tmpdir")
+        if d is None:
+            import atexit
+            import shutil
+            import tempfile
+
+            d = tempfile.mkdtemp(prefix="pv-")
+            self.state["_tmpdir"] = d
+            atexit.register(shutil.rmtree, d, True)
+        return d
+
     # ---- observations -------------------------------------------------
     def count(self, name, n=1):
         self.counters[name] += n
